@@ -116,7 +116,7 @@ func init() {
 		Rule: "real janitor (DeleteExpiredJobInterval=1ms, DeleteExpiredAfter=1h) paused between cycles at its EvictionNeeded call-out; seeded rounds write mixes of never-expiring, fresh (+1h..+3h), " +
 			"recently expired (-1s..-30min) and long-expired (-2h..-10h) entries, then let 1..3 cleanup cycles run and compare Len/Walk/Read with the model (survivors = all but long-expired); " +
 			"TimeToLive finite and Unlimited (incl. first per-call TTL arriving late), all three backends; distinct_nontrivial = distinct (backend, ttl mode, class-mix pattern per round) cases containing a long-expired and a surviving entry",
-		Required:    []string{"cycles.observed", "entries.long_expired.deleted", "entries.never.survived", "entries.recent.survived", "entries.fresh.survived", "unlimited.late_ttl.cases", "hostile_callout.writes", "kind.ShardedMap", "kind.SyncMap", "kind.ShardedMapOf", "stress.rounds", "aging.must_be_deleted.checked", "aging.must_survive.checked", "progress.cleaned", "parked.cases", "renewed.entries_checked"},
+		Required:    []string{"cycles.observed", "entries.long_expired.deleted", "entries.never.survived", "entries.recent.survived", "entries.fresh.survived", "unlimited.late_ttl.cases", "hostile_callout.writes", "kind.ShardedMap", "kind.SyncMap", "kind.ShardedMapOf", "stress.rounds", "aging.must_be_deleted.checked", "aging.must_survive.checked", "progress.cleaned", "bulk.cycles", "parked.cases", "renewed.entries_checked"},
 		Assumptions: []string{"wall clock not stepped; class margins are >=1s against a 1h DeleteExpiredAfter boundary", "no eviction limit configured; EvictionNeeded always answers false"},
 		Timeout:     func(string) time.Duration { return 45 * time.Minute },
 	})
@@ -142,6 +142,11 @@ func runC11(b *Batch) {
 	}
 	if !b.Skip(2100000) && b.Only < 0 || b.Only == 2100000 {
 		c11Progress(b, 2100000)
+	}
+	for i := 0; i < b.Pick(1, 8); i++ {
+		if !b.Skip(2200000+i) && b.Only < 0 || b.Only == 2200000+i {
+			c11Bulk(b, 2200000+i)
+		}
 	}
 	n := b.Pick(2000, 400000) / b.NBatches
 	var wg sync.WaitGroup
@@ -1217,4 +1222,64 @@ func c11Progress(b *Batch, idx int) {
 			}
 		}
 	}
+}
+
+// c11Bulk: one stepped cleanup cycle over a big cache: tens of thousands of long-expired entries (the majority of every
+// shard) next to never-expiring, fresh and recently expired ones. Exactly the long-expired ones go.
+func c11Bulk(b *Batch, idx int) {
+	rng := rand.New(rand.NewSource(b.CaseSeed(idx)))
+	kind := backendKinds[rng.Intn(3)]
+	const D = time.Minute
+	g := newJanGate()
+	cfg := cache.Config{DeleteExpiredJobInterval: time.Millisecond, DeleteExpiredAfter: D, TimeToLive: cache.UnlimitedTTL, ExpirationJitter: -1, EvictionNeeded: g.evictionNeeded}
+	be := newBackend(kind, cfg)
+	parked := false
+	defer func() { g.done(parked) }()
+	if _, err := g.next(); err != nil {
+		b.R.Inconcl("C11 bulk: janitor never arrived")
+		return
+	}
+	parked = true
+	nLong := 12000 + rng.Intn(20000)
+	nOther := 500 + rng.Intn(1500)
+	classes := map[string]context.Context{
+		"long":   cache.WithTTL(bg, -time.Hour, false),
+		"recent": cache.WithTTL(bg, -time.Second, false),
+		"fresh":  cache.WithTTL(bg, time.Hour, false),
+		"never":  bg,
+	}
+	for i := 0; i < nLong; i++ {
+		be.Write(classes["long"], []byte(fmt.Sprintf("long-%d", i)), "v")
+	}
+	for _, c := range []string{"recent", "fresh", "never"} {
+		for i := 0; i < nOther; i++ {
+			be.Write(classes[c], []byte(fmt.Sprintf("%s-%d", c, i)), "v")
+		}
+	}
+	g.release(false)
+	parked = false
+	if _, err := g.next(); err != nil {
+		b.R.Inconcl("C11 bulk: janitor did not come back")
+		return
+	}
+	parked = true
+	left := map[string]int{}
+	be.Walk(func(k []byte, _ interface{}, _ timeT) error {
+		left[string(k[:bytes.IndexByte(k, '-')])]++
+		return nil
+	})
+	b.R.Eval()
+	b.R.Count("bulk.cycles", 1)
+	b.R.Count("bulk.long_expired_entries", int64(nLong))
+	b.R.Nontrivial(fmt.Sprintf("bulk/%s/long>=%d", kind, nLong/4000*4000))
+	w := map[string]interface{}{"backend": kind, "long_expired": nLong, "per_other_class": nOther, "left": left}
+	if left["long"] != 0 {
+		b.R.Violate(b, idx, "C11:"+kind+":bulk-long-expired-survived", fmt.Sprintf("%d of %d long-expired entries survived a cleanup cycle of a big cache", left["long"], nLong), w)
+	}
+	for _, c := range []string{"recent", "fresh", "never"} {
+		if left[c] != nOther {
+			b.R.Violate(b, idx, "C11:"+kind+":bulk-"+c+"-deleted", fmt.Sprintf("%d of %d %s entries are gone after a cleanup cycle that had %d long-expired entries to delete", nOther-left[c], nOther, c, nLong), w)
+		}
+	}
+	runtime.KeepAlive(be)
 }
